@@ -15,7 +15,7 @@ algorithm, to the valueDigests entry for its namespace and digestID. -/
 theorem C04_issuer_valid_binds (f : Facts)
     (h : (handleResponse f).issuer = .valid) :
     f.msoDecodes = true ∧ f.digestsMatch = true ∧ f.docTypeMatches = true := by
-  obtain ⟨_, _, _, _, _, _, _, _, _, _, _, _, _, _, hm, hdt, hdg⟩ := (C03_issuer_valid_iff f).mp h
+  obtain ⟨_, _, _, _, _, _, _, _, _, _, _, _, hm, hdt, hdg⟩ := (C03_issuer_valid_iff f).mp h
   exact ⟨hm, hdg, hdt⟩
 
 /-- An altered value / identifier / random / digestID, a moved or injected item (some digest no
@@ -34,7 +34,7 @@ theorem C04_altered_has_error (f : Facts)
 /-- the signature over the MSO itself is checked as well -/
 theorem C04_mso_signature_checked (f : Facts)
     (h : (handleResponse f).issuer = .valid) : f.issuerSigAccepts = true ∧ f.issuerPayloadAttached = true := by
-  obtain ⟨_, _, _, _, _, _, _, _, _, _, _, hp, _, ha, _⟩ := (C03_issuer_valid_iff f).mp h
+  obtain ⟨_, _, _, _, _, _, _, _, _, hp, _, ha, _⟩ := (C03_issuer_valid_iff f).mp h
   exact ⟨ha, hp⟩
 
 /-- non-vacuity: the former counterexamples are now Invalid with an issuer-authentication error -/
